@@ -9,7 +9,7 @@ Rec == IF lastop'.op = "Load" THEN lastop' @@ [rows |-> RowsOut(g')] ELSE lastop
 GInit == AInit /\ hist = <<[op |-> "Key", key |-> KeyOut, W |-> W, NP |-> NP, KK |-> KK, LL |-> LL, BGB |-> BGB]>>
 R(S) == RandomElement(S)
 \* one successor per class of operation, arguments drawn at random, so that the resetting operations (Clear, Trivial, Load) do not crowd out the others
-Pick == \/ Clear \/ AddH \/ AddH \/ FFTRound
+Pick == \/ Clear \/ AddH \/ AddH \/ FFTRound \/ FFTAddH \/ FFTOnlyH
         \/ AddMuH(MuP(R(1..Len(MuPool)))) \/ AddMuH(MuP(R(1..Len(MuPool)))) \/ AddMuIntH(R({-1, 2, 3})) \/ AddMuIntH(R({-1, 2, 3}))
         \/ Trivial(MuP(R(1..Len(MuPool)))) \/ Load(R(1..Len(MuPool)), R(Tags)) \/ Load(R(1..Len(MuPool)), R(Tags))
         \/ MulXaiM1(R(Exps)) \/ MulXaiM1(R(Exps)) \/ MulXaiM1(R(Exps))
